@@ -474,5 +474,41 @@ func runC18(o *out, thorough bool, r *rng, _ []string) map[string]interface{} {
 		o.fail("hmac-concurrent-mismatch", fmt.Sprintf("%d of %d concurrent histories differ from crypto/hmac", bad, workers*per))
 	}
 	o.countN("concurrent-histories", workers*per)
+	// lock-step: in every round 16 goroutines are released at the same instant, each re-keys a pooled state with a
+	// long key of its own (longer than a block: hashed first) and computes a short MAC: shared scratch memory in
+	// that path shows whatever the load of the machine
+	{
+		const lw = 16
+		nbad := int32(0)
+		for round := 0; round < 400 && atomic.LoadInt32(&nbad) == 0; round++ {
+			var lwg sync.WaitGroup
+			start := make(chan struct{})
+			for w := 0; w < lw; w++ {
+				lwg.Add(1)
+				key := bytes.Repeat([]byte{byte(round), byte(w), 0x5c}, 30+w) // 90..135 bytes
+				msg := []byte{byte(w), byte(round)}
+				go func() {
+					defer lwg.Done()
+					ref := hmac.New(sha1.New, key)
+					ref.Write(msg)
+					want := ref.Sum(nil)
+					<-start
+					h := stun.VerifAcquireSHA1(key)
+					h.Write(msg)
+					got := h.Sum(nil)
+					stun.VerifPutSHA1(h)
+					if !bytes.Equal(got, want) {
+						atomic.AddInt32(&nbad, 1)
+					}
+				}()
+			}
+			close(start)
+			lwg.Wait()
+		}
+		if nbad > 0 {
+			o.fail("hmac-concurrent-mismatch", fmt.Sprintf("x %d of the MACs computed by 16 goroutines released together, each with a long key of its own, differ from crypto/hmac", nbad))
+		}
+		o.countN("lock-step-long-keys", 400*lw)
+	}
 	return nil
 }
